@@ -21,7 +21,9 @@ from typing import Any, Dict, List, Optional, Set
 from ..core import AnalysisError, ClassInfo, Ctx, FuncInfo, body_without_docstring, calls_in, dotted, norm, walk_no_nested
 from ..layout import NotLayout, term_str
 from ..trace import Tracer, isinstance_branches, show_all
-from .c02 import SPEC_BLS, _canon_term, definition_term
+from ..fold import Sym
+from ..layout import TBls, explore
+from .c02 import class_layout_exprs, eval_layout
 
 SER = "_serializable."
 SD = "_serdes"
@@ -31,15 +33,27 @@ def rule_r1(ctx: Ctx) -> None:
     repo = ctx.repo
     ctx.rule("C14.R1", "a delimited type's length set depends only on header width, alignment and declared extent; containers use only bit_length_set / alignment_requirement of their fields' types", min_instances=4)
     d = ctx.cls(SER + "_composite.DelimitedType")
-    try:
-        got, fn, node = definition_term(ctx, d)
-        want = _canon_term(repo, d, ast.parse(SPEC_BLS["_composite.DelimitedType"], mode="eval").body)
-    except NotLayout as ex:
-        ctx.fail(d.short + ".bit_length_set", "layout term", "not an expression of the bit-length-set algebra: %s" % ex, where=d.module.relpath)
-        return
-    txt = term_str(got)
-    leaks = [w for w in ("inner", "_inner", "attributes", "fields", "aggregate", "bls(") if re.search(r"\b%s" % re.escape(w), txt)]
-    ctx.check(got == want and not leaks, d.short + ".bit_length_set", txt, "replacing the inner type by a revision with the same extent must not change the container-visible length set", fn.where(node), {"expected": term_str(want), "mentions": leaks})
+    exprs, fn = class_layout_exprs(ctx, d)
+    bad = []
+    shown = ""
+    for ext in (0, 8, 64, 2040):
+        terms = []
+        for rev in ("A", "B"):
+            # two revisions of the inner type with the same extent but different fields / length sets
+            inner = Sym(alignment_requirement=8, extent=ext, bit_length_set=TBls.var("INNER_" + rev, 8), fields=[Sym(data_type=Sym(bit_length_set=TBls.var("F_" + rev), alignment_requirement=1))] * (1 if rev == "A" else 2), inner_type=None)
+            env = {"self": Sym(alignment_requirement=8, extent=ext, inner_type=inner, delimiter_header_type=Sym(bit_length=32)), "inner": inner, "extent": ext}
+            try:
+                runs = explore(lambda: eval_layout(ctx, d, exprs, fn, env))
+            except NotLayout as ex:
+                raise AnalysisError("DelimitedType.bit_length_set: %s" % ex)
+            terms.append(sorted(repr(t) for _, ts in runs for t in ts))
+            ctx.count()
+        shown = terms[0][0] if terms[0] else "?"
+        want = repr(32 + TBls.of(8).repeat_range(ext // 8))
+        leaks = [t for t in terms[0] + terms[1] if "INNER" in t or "F_" in t]
+        if terms[0] != terms[1] or leaks or any(t != want for t in terms[0]):
+            bad.append({"extent": ext, "revision A": terms[0], "revision B": terms[1], "expected": want})
+    ctx.check(not bad, d.short + ".bit_length_set", shown, "replacing the inner type by a revision with the same extent must not change the container-visible length set", fn.where(), bad[:2])
     init = d.methods["__init__"]
     # inner.* only in guards / the super() call / assertions
     uses = []
